@@ -70,6 +70,12 @@ class Ctx(object):
         self.prop, self.stats, self.violation = prop, stats, None
         self.budget_scale = budget_scale
 
+    def outside(self, name):
+        """The explicit op is outside the property's precondition on the current tree (can only happen when a trace is
+        replayed on a different tree or during minimisation): nothing is asserted."""
+        self.stats.vacuous += 1
+        self.stats.inc("probes", "outside-precondition:" + name)
+
     def fail(self, clause, what, **detail):
         if self.violation is None:
             self.violation = Violation(self.prop, clause, what, detail)
@@ -271,9 +277,9 @@ def oracle_c04(op, design, out, strand, ctx, row_bound):
         return
     nlive = len(design.live)
     if op["start"] not in design.live:
-        raise HarnessError("C04 write from a vertex that is not retained")
+        return ctx.outside("c04-start-not-retained")
     if fast and design.hist[3] > 0:
-        raise HarnessError("C04 fast write on a design with a 3-way vertex")
+        return ctx.outside("c04-fast-with-3way")
     st.nonvacuous += 1
     det = {"k": design.k, "threshold": design.threshold, "fast": fast, "L": L, "start": op["start"]}
     if out.kind == "budget":
@@ -383,7 +389,7 @@ def oracle_c06(op, design, out, ctx):
            "check": "none" if check is None else "given", "faults": op.get("faults", [])}
     if fast:
         if design.hist[3] > 0:
-            raise HarnessError("fast decode on a design with a 3-way vertex")
+            return ctx.outside("c06-fast-with-3way")
         if M.carried_bits(wk.degrees) > op["bit_length"]:
             st.vacuous += 1
             st.inc("probes", "c06:fast-outside-precondition")
@@ -482,8 +488,8 @@ def _first_bad_class(design, start, read):
 
 def oracle_c10(op, design, out, ctx, row_bound):
     st, read, k = ctx.stats, op["read"], design.k
-    if not M.is_acgt(read) or len(read) < k:
-        raise HarnessError("C10 read outside the precondition")
+    if not M.is_acgt(read) or len(read) < k or not 0 <= op["start"] < 4 ** k:
+        return ctx.outside("c10-read")
     wk, where_bad = _first_bad_class(design, op["start"], read)
     det = {"k": k, "n": len(read), "first_bad": where_bad, "start_degree": M.out_degree(design.rows, op["start"]),
            "has_indel": op.get("has_indel", False), "heap": op.get("heap", 1000),
@@ -510,8 +516,8 @@ def oracle_c10(op, design, out, ctx, row_bound):
 
 def oracle_c09(op, design, out, ctx):
     st, read, k, check = ctx.stats, op["read"], design.k, op.get("check")
-    if len(read) < k:
-        raise HarnessError("C09 read shorter than a window")
+    if len(read) < k or not 0 <= op["start"] < 4 ** k:
+        return ctx.outside("c09-read")
     wk = M.walk(design.rows, op["start"], read)
     det = {"k": k, "n": len(read), "walk": wk.is_walk, "has_indel": op.get("has_indel", False),
            "heap": op.get("heap", 1000), "check": "none" if check is None else "given",
@@ -565,8 +571,8 @@ def oracle_c09(op, design, out, ctx):
 def oracle_c08(op, design, out, ctx):
     st, read, k = ctx.stats, op["read"], design.k
     w, edits = op["origin"], op["edits"]
-    if not design.generated:
-        raise HarnessError("C08 read on a design that was not generated")
+    if not design.generated or op.get("origin") is None:
+        return ctx.outside("c08-design-not-generated")
     n = len(w)
     # preconditions of the property, re-established from the explicit op (so a minimised trace stays inside them)
     wk_w = M.walk(design.rows, op["start"], w)
@@ -579,10 +585,10 @@ def oracle_c08(op, design, out, ctx):
     subs_only = all(e[0] == "S" for e in edits)
     has_indel = op.get("has_indel", True)
     if not has_indel and not subs_only:
-        raise HarnessError("C08 indel edits with indel handling off")
+        return ctx.outside("c08-indel-off")
     check = op.get("check")
-    if check is not None and check != M.vt(w, len(check)):
-        raise HarnessError("C08 check is not the check of w")
+    if check is not None and (len(check) < 1 or check != M.vt(w, len(check))):
+        return ctx.outside("c08-check-not-of-w")
     wk = M.walk(design.rows, op["start"], read)
     lags = []
     for e in edits:
